@@ -18,24 +18,15 @@
    No proofs in this file. *)
 From Coq Require Import List ZArith NArith String Ascii Bool.
 Import ListNotations.
-From Verif Require Import Common.V Common.Base.
+From Verif Require Import Common.V Common.Base Common.SerialUtil.
 Open Scope string_scope.
 Open Scope Z_scope.
 
 (* ------------------------------------------------------------------ *)
-(* strings: ASCII case mapping (strings.ToLower / strings.EqualFold agree
-   with this on ASCII input; the non-ASCII folds — U+212A KELVIN SIGN to k,
-   U+017F to s — are outside the model and never produced by an encoder) *)
-
-Definition lower_ascii (c : ascii) : ascii :=
-  let n := N_of_ascii c in
-  if andb (N.leb 65 n) (N.leb n 90) then ascii_of_N (n + 32) else c.
-Fixpoint lower (s : string) : string :=
-  match s with
-  | EmptyString => EmptyString
-  | String c t => String (lower_ascii c) (lower t)
-  end.
-Definition eqfold (a b : string) : bool := String.eqb (lower a) (lower b).
+(* strings: ASCII case mapping from Common/SerialUtil.v (strings.ToLower /
+   strings.EqualFold agree with it on ASCII input; the non-ASCII folds —
+   U+212A KELVIN SIGN to k, U+017F to s — are outside the model and never
+   produced by an encoder) *)
 
 (* errors.go: ErrUnknownType = errors.New("unknown"); every String() returns
    ErrUnknownType.Error() in its default arm *)
